@@ -19,9 +19,9 @@ HARNESSES = [
 ] + [
     KH("O15.2", "c15_o2_validate_insert", "validate_insert_request: Ok <=> doc_id>=1 & 1<=len & all finite",
        functions=F, bounds="embedding len 0..3 symbolic f32, doc_id any u64"),
-    KH("O15.2/dim", "c15_o2_insert_dim_limit", "validate_insert_request: length limit exactly 4096", functions=F,
-       bounds="len in {4096,4097}, concrete finite values, unwind 4100", tier="thorough", timeout=900),
 ]
+# O15.2/dim (Kani, lengths 4096/4097 with unwind 4100) never finished (2400 s time-out in the thorough tier) and was removed;
+# the length limit is decided for all lengths by the DECIDES obligation O15.5/insert_decision below.
 # O15.3 Kani rows (filter trees built from Vec/Box/String: leaf, and, or, not_*, and_or) were removed from both tiers: none
 # reached a verdict (leaf > 10 min in isolation; six rows ran 47 min in the thorough tier without one finishing).  The
 # obligation is decided by the z3 value slice O15.3/oversampling_values below; the harness source stays in
@@ -30,7 +30,22 @@ HARNESSES = [
 
 
 H = "hnsw_backend::HnswBackend::"
+def insert_decision(F):
+    """validate_insert_request: Ok <=> doc_id >= MIN_DOC_ID and the embedding is non-empty, at most MAX_EMBEDDING_DIM long and all
+    finite — the whole decision, for every value of doc_id and of the length (DECIDES; the emptiness and finiteness tests are
+    opaque atoms here and value-checked by Kani O15.2)."""
+    from vlib import mirdec as MD
+    atoms = [("doc_id", r"InsertRequest\)\}\)\.\d+: u64\)$"), ("min_id", r"^const (api_validation::)?MIN_DOC_ID$"), ("empty", r"^call Vec::<f32>::is_empty$"),
+             ("len", r"^call Vec::<f32>::len$"), ("max_dim", r"^const (api_validation::)?MAX_EMBEDDING_DIM$"), ("non_finite", r"^call <std::slice::Iter<'_, f32> as Iterator>::any::<")]
+    OKI = stmt(r"^_0 = Result::<\(\), String>::Ok\(", name="return Ok(())")
+    return MD.decides(F, "api_validation::validate_insert_request", "entry", {"ok": OKI}, atoms,
+                      {"ok": "(and (>= doc_id min_id) (not empty) (<= len max_dim) (not non_finite))"}, declare=("empty", "non_finite"),
+                      what="validate_insert_request accepts exactly the requests with doc_id >= MIN_DOC_ID and a non-empty, finite embedding of at most MAX_EMBEDDING_DIM lanes")
+
+
 MOS = [
+    MO("O15.5/insert_decision", "validate_insert_request: Ok <=> doc_id >= MIN_DOC_ID, embedding non-empty, length <= MAX_EMBEDDING_DIM, all lanes finite — whole decision for every doc_id and length (DECIDES)",
+       insert_decision, functions=[("api_validation.rs", "validate_insert_request")]),
     MO("O15.4/engine_refusal", "every engine write path goes through HnswBackend::insert, which runs normalize_in_place_if_needed and the index's own acceptance test (finite lanes, norm band) before the WAL append "
        "(the value-level statement 'accepted by the pre-flight => accepted by the index' is Kani obligation O3.1 of C03)",
        allof(only_via_call(H + "insert", WAL_APPEND, call(r"= (hnsw_backend::)?normalize_in_place_if_needed\(", name="normalize_in_place_if_needed"),
